@@ -143,7 +143,18 @@ fn replay(case: &Value) -> Vec<Violation> {
         }
         _ => {
             let x = jd(&case["x"]);
-            check(Op::from_name(op), &bd(&x), &x, case["target_scale"].as_i64().unwrap(), m)
+            let xb = bd(&x);
+            if let Some(a) = case.get("after") {
+                // a recorded history: the earlier call first
+                let (t1, m1) = (a["target_scale"].as_i64().unwrap(), Mode::from_name(a["mode"].as_str().unwrap()).unwrap());
+                let _ = guard(|| xb.with_scale_round(t1, rm(m1)));
+            }
+            check(Op::from_name(op), &xb, &x, case["target_scale"].as_i64().unwrap(), m).map(|mut v| {
+                if let (Some(a), Some(o)) = (case.get("after"), v.case.as_object_mut()) {
+                    o.insert("after".into(), a.clone());
+                }
+                v
+            })
         }
     };
     r.into_iter().collect()
@@ -486,6 +497,36 @@ fn main() {
                 t.transitions += 1;
                 if let Some(v) = check(Op::WithScale, &yb, &y, s as i64, Mode::Down) {
                     run.report(v);
+                }
+            }
+        }
+        t
+    });
+    // S12: call histories of length two: every ordered pair of (target scale, mode) settings inside the digits of each
+    // operand; the functions are pure, so the second call must not depend on the first
+    let hx: Vec<Dec> = vec![Dec::new(12345678, 3), Dec::new(-99995, 2), Dec::new(25, 1), Dec::new(1500001, 6), Dec { n: big(&filler_digits(run.seed(), 40, 40)), s: 17 }, Dec { n: pow10(30) - 1, s: 4 }, Dec::new(-14999, 0), Dec::new(5, 1)];
+    run.bound("S12_history_operands", hx.len());
+    run.par("S12 call histories of length two", hx.len(), |i| {
+        let mut t = Tally::default();
+        let x = &hx[i];
+        let xb = bd(x);
+        let d = ndigits(&x.n) as i64;
+        let targets: Vec<i64> = ((x.s as i64 - d.min(6))..=(x.s as i64 + 1)).collect();
+        t.states += 1;
+        for &t1 in targets.iter() {
+            for m1 in MODES {
+                for &t2 in targets.iter() {
+                    for m2 in MODES {
+                        t.transitions += 2;
+                        t.nontrivial += 1;
+                        let _ = guard(|| xb.with_scale_round(t1, rm(m1)));
+                        if let Some(mut v) = check(Op::WithScaleRound, &xb, x, t2, m2) {
+                            if let Some(o) = v.case.as_object_mut() {
+                                o.insert("after".into(), json!({"target_scale": t1, "mode": m1.name()}));
+                            }
+                            run.report(v.attr("history", true));
+                        }
+                    }
                 }
             }
         }
